@@ -20,6 +20,9 @@ func genCase(t *rapid.T) arith.Case {
 	var c arith.Case
 	c.Op = []string{"sqrt", "cbrt"}[gen.Pick(t, 2, "op")]
 	c.Ctx = gen.Context(t, 60)
+	if c.Op == "sqrt" {
+		c.Ctx = gen.Context(t, 400) // beyond the 128-digit tables
+	}
 	arith.FillOperands(t, &c)
 	if c.X.Coeff == "0" {
 		c.X.Coeff = "2"
